@@ -32,6 +32,7 @@ _PARENT = {
     'AttributeError': 'Exception',
     'RuntimeError': 'Exception',
     'NotImplementedError': 'RuntimeError',
+    'RecursionError': 'RuntimeError',
     'StopIteration': 'Exception',
     'webob.exc.HTTPException': 'Exception',
     'webob.exc.WSGIHTTPException': 'webob.exc.HTTPException',
@@ -60,7 +61,8 @@ WEBOB_STATUS = {
 # library callables that raise on bad input: dotted/builtin name -> classes
 LIB_RAISES = {
     'uuid.UUID': ('ValueError',),
-    'oslo_serialization.jsonutils.loads': ('ValueError',),
+    # the C scanner recurses on nested arrays/objects: '[' * 100000
+    'oslo_serialization.jsonutils.loads': ('ValueError', 'RecursionError'),
     'jsonschema.validate': ('jsonschema.ValidationError',),
     'microversion_parse.parse_version_string': ('TypeError',),
 }
